@@ -64,6 +64,9 @@ def relevant_failures(prop, r):
         elif prop == 'C16':
             if tag == 'C16':
                 out.append(f)
+        elif prop == 'C09':
+            if tag in ('C09', None):
+                out.append(f)
     return out
 
 
